@@ -426,6 +426,21 @@ fn pcap_route(r: &mut Report, thorough: bool) {
     if seq_tcp.len() < 24 || seq_http.len() < 8 || seq_tls.len() < 4 {
         r.machinery_error(format!("pcap-route: the sequential references are too small ({} / {} / {})", seq_tcp.len(), seq_http.len(), seq_tls.len()));
     }
+    // the per-packet functions are what the loom engine and the pool sweep use as "the sequential analyzer": bind them to
+    // the analyzer objects' own sequential mode (same trace, same capacity, bundled database)
+    {
+        let d = crate::drv::db();
+        let cfg = json!({"kind": "pcap-route", "route": "sequential analyze_pcap vs per-packet functions"});
+        let mut a = TcpSeq::new(Some(d), cap);
+        let f: Vec<String> = trace.iter().map(|x| a.feed(x)).filter(|x| !x.is_empty()).map(|x| format!("{x:?}")).collect();
+        compare_named(r, "pcap-route", "tcp-sequential-object", &cfg, Ok(Ok(seq_tcp.clone())), f);
+        let mut a = HttpSeq::new(Some(d), cap);
+        let f: Vec<String> = trace.iter().map(|x| a.feed(x)).filter(|x| !x.is_empty()).map(|x| format!("{x:?}")).collect();
+        compare_named(r, "pcap-route", "http-sequential-object", &cfg, Ok(Ok(seq_http.clone())), f);
+        let mut a = TlsSeq::new(cap);
+        let f: Vec<String> = trace.iter().map(|x| a.feed(x)).filter(|x| !x.is_empty()).map(|x| format!("{x:?}")).collect();
+        compare_named(r, "pcap-route", "tls-sequential-object", &cfg, Ok(Ok(seq_tls.clone())), f);
+    }
     let worker_counts: &[usize] = if thorough { &[1, 2, 3, 4, 8, 16] } else { &[1, 2, 4] };
     let rounds = if thorough { 5 } else { 2 };
     for &workers in worker_counts {
